@@ -496,6 +496,12 @@ def gen_rhs(rng, allowed, tvar, qcount, states=(), rational=False, pderiv=0.08):
             return [3, rng.choice(allowed)]
         if r < 0.93 - pderiv:
             qcount[0] += 1
+            if rng.random() < 0.08:
+                # two numbers in one expression that agree to six significant digits (the display name of a Quantity) yet differ
+                a, b = rng.choice([('1234567', '1234568'), ('96485.3415', '96485.3'), ('0.30000004', '0.3')])
+                qcount[0] += 1
+                return [4, q(qcount[0] - 1, a), [5, q(qcount[0], b), [0, 0, Fraction(-1)]]] if rng.random() < 0.5 else \
+                    [4, q(qcount[0] - 1, a), q(qcount[0], b)]
             return q(qcount[0], rng.choice(['2', '0.5', '3', '1', '-1', '10']))
         if r < 0.93 and allow_deriv:
             return [8, [3, rng.choice(list(states))], [3, tvar], 1]
